@@ -36,6 +36,7 @@
 
 #include <algorithm>
 #include <Eigen/Core>
+#include <Eigen/Eigenvalues>
 
 #include "romea_core_common/pointset/algorithms/NormalAndCurvatureEstimation.hpp"
 
@@ -395,6 +396,7 @@ struct Ref
 
 struct Counters
 {
+  uint64_t dirCheckedSmallGap = 0;
   uint64_t checked = 0, ambiguous = 0, degenerate = 0, gapFiltered = 0, dirChecked = 0, dirIll = 0,
     planarChecked = 0, planarIll = 0, equivChecked = 0, equivSkipped = 0, grazing = 0;
 };
@@ -615,6 +617,7 @@ void checkOutputs(
           vf::fmt("%s %s: point %zu (k=%zu): normal differs from the minor eigenvector of the neighbourhood covariance by %.3Lg "
           "(tolerance %.3Lg, relative eigen-gap %.3Lg)", tn, overload, i, cl.k, ch, tol, r.gapAbs / r.tr));
         if (cnt) {cnt->dirChecked++;}
+        if (cnt && r.gapAbs <= 1e-3L * r.tr) {cnt->dirCheckedSmallGap++;}
       }
     }
     // (7) flat neighbourhood (planar / linear cloud, or one face of a piecewise planar one): the surface normal, curvature 0
@@ -797,6 +800,56 @@ void body(vf::Ctx & c, int64_t nLo, int64_t nHi, bool grow)
 {
   Cloud cl = genCloud(c, nLo, nHi, grow);
   Rot R = genRotation(c, cl.dim);
+  // isolated groups of exactly k points (poles, wires, blobs): every point's k nearest neighbours are its own group, and
+  // the group is shaped so that its two smallest covariance eigenvalues are close but distinct (relative difference
+  // 1e-6 .. 1e-2). The direction of least variance is still defined there and the statement asks for it down to 1e-6.
+  if (c.s.pick("neighbourhood_structure", {4, 1}) == 1 && cl.k >= static_cast<size_t>(cl.dim) + 2 && cl.n >= 2 * cl.k) {
+    const int D = cl.dim;
+    const size_t k = cl.k, nc = std::min<size_t>(cl.n / k, 40);   // 13^D - 1 lattice cells are available
+    const double g0 = c.s.rlog("group_eigenvalue_gap", 1e-6, 1e-2);
+    const double s = c.s.rlog("group_size", 0.01, 1.0);
+    vf::Rng rng(c.s.seed("group_seed"));
+    std::vector<std::array<int, 3>> used;
+    size_t at = 0;
+    for (size_t q = 0; q < nc; ++q) {
+      // centre on a coarse lattice (spacing 60 group sizes, a group is at most sqrt(k*D) < 10 sizes wide), never the cell
+      // of the sensor
+      std::array<int, 3> cell{};
+      for (;; ) {
+        for (int d = 0; d < 3; ++d) {cell[d] = d < D ? static_cast<int>(rng.range(-6, 6)) : 0;}
+        bool origin = true, dup = false;
+        for (int d = 0; d < D; ++d) {origin = origin && cell[d] == 0;}
+        for (const auto & u : used) {dup = dup || u == cell;}
+        if (!origin && !dup) {break;}
+      }
+      used.push_back(cell);
+      Eigen::MatrixXd X(k, D);
+      for (size_t i = 0; i < k; ++i) {for (int d = 0; d < D; ++d) {X(i, d) = rng.gauss();}}
+      X.rowwise() -= X.colwise().mean();
+      Eigen::MatrixXd C = X.transpose() * X / static_cast<double>(k);
+      Eigen::SelfAdjointEigenSolver<Eigen::MatrixXd> es(C);
+      if (!(es.eigenvalues()[0] > 1e-6)) {continue;}   // degenerate draw: leave this group's points where they were
+      Eigen::MatrixXd W = es.eigenvectors() * es.eigenvalues().cwiseSqrt().cwiseInverse().asDiagonal();
+      Eigen::VectorXd mu(D);
+      mu[0] = 1.0; mu[1] = 1.0 + g0 * rng.uniform(0.3, 3.0);
+      if (D == 3) {mu[2] = rng.uniform(1.5, 25.0);}
+      double e[3][3];
+      randomFrame(rng, D, e);
+      Eigen::MatrixXd Q(D, D);
+      for (int r = 0; r < D; ++r) {for (int d = 0; d < D; ++d) {Q(r, d) = e[r][d];}}
+      Eigen::MatrixXd Xp = X * W * mu.cwiseSqrt().asDiagonal() * Q * s;
+      for (size_t i = 0; i < k; ++i, ++at) {
+        for (int d = 0; d < D; ++d) {cl.x[at * D + d] = 60.0 * s * cell[d] + Xp(i, d);}
+        cl.piece[at] = -1;
+      }
+    }
+    // left-over points: a sparse far-away row of their own
+    for (size_t j = 0; at < cl.n; ++at, ++j) {
+      for (int d = 0; d < D; ++d) {cl.x[at * D + d] = 60.0 * s * (d == 0 ? 9.0 + static_cast<double>(j) : 7.5 + 0.37 * static_cast<double>(j * (d + 1)));}
+      cl.piece[at] = -1;
+    }
+    c.label("isolated-groups-of-k-points(two smallest eigenvalues close)");
+  }
   // merged scans / multi-echo returns: some points stored more than once (exact copies of another point; a neighbourhood
   // that collapses to one location because of them is degenerate and handled as such). The k nearest neighbours of a point then
   // contain its copies, and the definition does not change.
@@ -841,6 +894,7 @@ void body(vf::Ctx & c, int64_t nLo, int64_t nHi, bool grow)
   cls["points:degenerate-neighbourhood(skipped)"] += cnt.degenerate;
   cls["points:eigen-gap<=1e-6(direction skipped)"] += cnt.gapFiltered;
   cls["points:direction-checked"] += cnt.dirChecked;
+  cls["points:direction-checked-with-eigen-gap-in(1e-6,1e-3]"] += cnt.dirCheckedSmallGap;
   cls["points:direction-tolerance>0.1(skipped)"] += cnt.dirIll;
   cls["points:flat-exactness-checked"] += cnt.planarChecked;
   cls["points:flat-ill-conditioned(skipped)"] += cnt.planarIll;
